@@ -111,6 +111,7 @@ type M struct {
 func newMachine(dir, prop string, seed int64, ne, ns int) *M {
 	m := &M{rng: rand.New(rand.NewSource(seed)), classes: map[string]int{}, rootMemo: map[string][2]any{},
 		prop: prop, dir: dir, perFile: 1 << 30, raw: secp256k1.VerifAccessor}
+	learnScalarErrors()
 	m.E = make([]*secp256k1.Element, ne)
 	m.S = make([]*secp256k1.Scalar, ns)
 	return m
